@@ -548,6 +548,36 @@ pub fn generate(seed: u64, tier: &str, property: &str) -> RegScenario {
             h.push(Op::SetGlobal { key, val, via_extend: rng.chance(1, 3) }, None, false);
         } else if roll < 80 {
             h.push(Op::Restart, None, false);
+        } else if roll < 83 {
+            // degenerate and idempotent calls, right after something else changed: no "nothing
+            // to do" shortcut may skip work that the earlier change made necessary
+            match rng.below(7) {
+                0 => h.push(Op::AddBatch { items: vec![] }, Some("empty-batch"), false),
+                1 => {
+                    let i = rng.below(n);
+                    h.push(Op::AddRaw { name: h.name(i), source: h.current[i].clone() }, Some("identical-re-add"), false);
+                }
+                2 => {
+                    let i = rng.below(n);
+                    let it = (h.name(i), h.current[i].clone());
+                    h.push(Op::AddBatch { items: vec![it.clone(), it] }, Some("same-pair-twice-in-batch"), false);
+                }
+                3 => {
+                    // the suffix list the engine already has (whatever the last call set)
+                    let last = h.ops.iter().rev().find_map(|o| if let Op::AutoescapeOn { suffixes } = o { Some(suffixes.clone()) } else { None });
+                    if let Some(sfx) = last {
+                        h.push(Op::AutoescapeOn { suffixes: sfx }, Some("same-suffix-list-again"), false);
+                    }
+                }
+                4 if use_disk => h.push(Op::AddFiles { items: vec![], faults: vec![] }, Some("empty-file-batch"), false),
+                5 if use_disk => {
+                    // a glob that matches nothing: every glob-owned template goes away (dependents
+                    // may break: then the call must fail and change nothing), then the real one again
+                    h.push(Op::LoadGlob { pattern: "nomatch/**/*".into(), faults: vec![] }, Some("glob-matching-nothing"), true);
+                    h.push(Op::LoadGlob { pattern: "tpl/**/*".into(), faults: vec![] }, None, false);
+                }
+                _ => h.push(Op::FullReload { faults: vec![] }, Some("reload-maybe-without-glob"), false),
+            }
         } else if use_disk {
             let files: Vec<usize> = (0..n).filter(|i| file_backed[*i]).collect();
             if files.is_empty() {
